@@ -187,4 +187,4 @@ func c13Class(kind string, t *vh.TSpec, v vh.Val) string {
 
 func init() { registrars = append(registrars, c13.Register) }
 
-func TestC13(t *testing.T) { c13.Check(t, vh.N(20000, 50000)) }
+func TestC13(t *testing.T) { c13.Check(t, vh.N(20000, 30000)) }
